@@ -703,14 +703,22 @@ def c03_texts(nind: int, nmind: int, nshape: int, grp: int, case: int, pre: int,
     else:
       if cls == 'A':
         return rt.no('%s: rejected' % tag)
-      # nothing of the rejected text may have been read or bound: only (a prefix of) what stands
-      # before it (a tokenizer error may surface while the parser looks ahead)
-      if got != pre_expected[:len(got)]:
+      # nothing of the rejected text may have been misread or wrongly bound: only a prefix of what stands
+      # before the offending line - the context statements and, for a text of several statements, its own
+      # leading statements exactly as catalogued (C16: the statements preceding a fault take effect; before
+      # the repair of the parser's one-token look-ahead a tokenizer error also swallowed the statement
+      # right before it, which is still a prefix)
+      own = stmts or []
+      full = pre_expected + [(st, n_pre + off) for off, st in own]
+      if got != full[:len(got)] or (own and len(got) >= len(full)):   # at least the offending one is missing
         return rt.no('%s: rejected, but first yielded %r' % (tag, got))
       if not cfg_raised:
         return rt.no('%s: parser rejects, parse_config accepts' % tag)
-      allowed = [_config_of('')[1], _config_of(flat_text(pre_st))[1]]
-      if cfg not in allowed:
+      allowed = [_config_of('')[1]] + [_config_of(flat_text(pre_st) + flat_text(own[:k]))[1]
+                                       for k in range(max(1, len(own)))]
+      # (a failed parse records none of its imports: DESIGN section 9, C16)
+      nb = lambda body: [l for l in body if l]   # the blank line after the import block comes and goes with it
+      if not any(nb(cfg[0]) == nb(a[0]) and cfg[1] in ([], a[1]) for a in allowed):
         return rt.no('%s: rejected, but the configuration holds %r' % (tag, cfg))
     if alt is not None:
       # the same statements in another layout: same fate, same configuration
